@@ -823,7 +823,8 @@ func gen(r *vh.Rand) string {
 	if r.Chance(1, 150) {
 		return fmt.Sprintf("stress %d", r.Range(5, 30))
 	}
-	if r.Chance(1, 25) {
+	// rare in the quick tier: when the table lock really leaks every such case costs one 30 s watchdog
+	if r.Chance(1, 60) {
 		return genBalReload(r)
 	}
 	if r.Chance(1, 5) {
